@@ -17,6 +17,13 @@ import (
 	"golang.org/x/tools/go/ssa"
 )
 
+var repoRoot = func() string {
+	if r := os.Getenv("GOSYM_REPO"); r != "" {
+		return strings.TrimSuffix(r, "/")
+	}
+	return "/repo"
+}()
+
 var verifRoot = func() string {
 	if r := os.Getenv("GOSYM_ROOT"); r != "" {
 		return r
@@ -441,7 +448,7 @@ func runReplayDir(dir string) replayResult {
 		res.Err = err.Error()
 		return res
 	}
-	pkgName := string(pkgClauseRe.FindSubmatch(ov[filepath.Join("/repo", spec.Pkg, "zz_vrt_prims.go")])[1])
+	pkgName := string(pkgClauseRe.FindSubmatch(ov[filepath.Join(repoRoot, spec.Pkg, "zz_vrt_prims.go")])[1])
 	test := fmt.Sprintf(`//go:build verif
 
 package %s
@@ -463,7 +470,7 @@ func TestVrtReplay(t *testing.T) {
 	}
 	tp := filepath.Join(dir, "zz_vrt_replay_test.go")
 	os.WriteFile(tp, []byte(test), 0644)
-	repl[filepath.Join("/repo", spec.Pkg, "zz_vrt_replay_test.go")] = tp
+	repl[filepath.Join(repoRoot, spec.Pkg, "zz_vrt_replay_test.go")] = tp
 	os.WriteFile(filepath.Join(dir, "overlay.json"), mustJSON(map[string]interface{}{"Replace": repl}), 0644)
 	args := []string{"test", "-vet=off", "-count=1", "-tags", "verif", "-overlay", filepath.Join(dir, "overlay.json"),
 		"-run", "^TestVrtReplay$", "-timeout", "120s", "-v"}
@@ -471,7 +478,7 @@ func TestVrtReplay(t *testing.T) {
 		args = append(args, "-race")
 	}
 	cmd := exec.Command("go", append(args, "./"+spec.Pkg)...)
-	cmd.Dir = "/repo"
+	cmd.Dir = repoRoot
 	cmd.Env = append(os.Environ(), "GOFLAGS=-mod=mod", "GOPROXY=off", "GOSUMDB=off", "GOTOOLCHAIN=local", "VRT_REPLAY="+filepath.Join(dir, "replay.json"))
 	if rp.Repeat > 0 {
 		cmd.Env = append(cmd.Env, fmt.Sprintf("VRT_REPEAT=%d", rp.Repeat))
